@@ -94,3 +94,39 @@ func specCovers(op string, method string) bool {
 	}
 	return false
 }
+
+// ---- C05: Content-Range of a served range (RFC 7233) ----
+// A storage.ByteRange has an inclusive Start and an EXCLUSIVE End; Start == nil && End != nil is a suffix range of
+// *End bytes. specRangeLo / specRangeHi give the first and last byte position (inclusive) of the slice it selects on
+// an object of the given size: last-byte positions beyond the end are clamped, suffix ranges count from the end.
+
+func specRangeLo(r storage.ByteRange, size int64) int64 {
+	if r.Start != nil {
+		return *r.Start
+	}
+	if r.End != nil {
+		if *r.End < size {
+			return size - *r.End
+		}
+		return 0
+	}
+	return 0
+}
+
+func specRangeHi(r storage.ByteRange, size int64) int64 {
+	if r.Start != nil && r.End != nil && *r.End < size {
+		return *r.End - 1
+	}
+	return size - 1
+}
+
+// specServableRange: a range the storage layer accepts on an object of this size (non-empty selection inside it).
+func specServableRange(r storage.ByteRange, size int64) bool {
+	if size <= 0 {
+		return false
+	}
+	if r.Start != nil {
+		return *r.Start >= 0 && *r.Start < size && (r.End == nil || *r.End > *r.Start)
+	}
+	return r.End == nil || *r.End > 0
+}
